@@ -263,6 +263,13 @@ type pools struct {
 	tokens []string
 	pairs  [][2]string
 	texts  []string
+	leaves []leafInfo
+}
+
+// leafInfo is one text leaf of a generated row: its path and its tokens in order (duplicates kept).
+type leafInfo struct {
+	path string
+	toks []string
 }
 
 func buildPools(rows [][]byte, tm tokMode) *pools {
@@ -274,6 +281,9 @@ func buildPools(rows [][]byte, tm tokMode) *pools {
 			ps[e.Path] = struct{}{}
 			if e.IsLeaf && e.HasText {
 				p.texts = append(p.texts, e.Text)
+				if lt := tm.fn(e.Text); len(lt) > 0 {
+					p.leaves = append(p.leaves, leafInfo{e.Path, lt})
+				}
 				for _, tk := range tm.fn(e.Text) {
 					ts[tk] = struct{}{}
 					pairs[[2]string{e.Path, tk}] = struct{}{}
@@ -350,6 +360,56 @@ func (p *pools) cond(r Rng) *bs.BloomCondition {
 		}
 		return &bs.BloomCondition{Type: bs.BloomFieldToken, Field: p.path(r), Token: p.token(r)}
 	}
+}
+
+// leafExpr builds a tree whose conditions all talk about ONE leaf of ONE row: several Token / FieldToken
+// conditions over that leaf's own tokens (repeats, word order, reverse order, the same word under two
+// condition kinds), occasionally a near miss or the leaf's Field. Random pools almost never put two
+// satisfiable token conditions on the same leaf, which is exactly where a matcher's per-leaf bookkeeping
+// can go wrong.
+func (p *pools) leafExpr(r Rng) bs.BloomExpression {
+	lf := pick(r, p.leaves)
+	n := 2 + r.IntN(3)
+	var idx []int
+	for i := 0; i < n; i++ {
+		idx = append(idx, r.IntN(len(lf.toks)))
+	}
+	switch r.Pick(4) {
+	case 0:
+		sort.Ints(idx) // word order
+	case 1:
+		sort.Sort(sort.Reverse(sort.IntSlice(idx)))
+	case 2:
+		idx[1] = idx[0] // the same word twice
+	}
+	var conds []bs.BloomExpression
+	for _, i := range idx {
+		tk := lf.toks[i]
+		if r.Chance(0.08) {
+			tk = nearMiss(r, tk)
+		}
+		c := &bs.BloomCondition{Type: bs.BloomToken, Token: tk}
+		switch r.Pick(5) {
+		case 0, 1:
+			c = &bs.BloomCondition{Type: bs.BloomFieldToken, Field: lf.path, Token: tk}
+		case 2:
+			if r.Chance(0.3) {
+				c = &bs.BloomCondition{Type: bs.BloomField, Field: lf.path}
+			}
+		}
+		conds = append(conds, bs.BloomExpression{ExpressionType: bs.BloomExpressionCondition, Condition: c})
+	}
+	typ := bs.BloomExpressionAnd
+	if r.Chance(0.2) {
+		typ = bs.BloomExpressionOr
+	}
+	e := bs.BloomExpression{ExpressionType: typ, Children: conds}
+	if r.Chance(0.25) && len(conds) > 2 {
+		// nest: (c0 op c1) op' rest
+		inner := bs.BloomExpression{ExpressionType: pick(r, []bs.BloomExpressionType{bs.BloomExpressionAnd, bs.BloomExpressionOr}), Children: conds[:2]}
+		e.Children = append([]bs.BloomExpression{inner}, conds[2:]...)
+	}
+	return e
 }
 
 func genBloomExpr(r Rng, p *pools, depth int) bs.BloomExpression {
